@@ -313,6 +313,9 @@ def main(modname, argv):
 
     rdir = os.path.join(ROOT, 'evidence', 'replays')
     os.makedirs(rdir, exist_ok=True)
+    for fn in os.listdir(rdir):      # replay files of earlier runs of this property are stale
+        if fn.startswith(prop + '-'):
+            os.remove(os.path.join(rdir, fn))
     violation_lines = []
     if harness_errors:
         c, r = harness_errors[0]
